@@ -1,5 +1,6 @@
 import FpVerif.Sexp
 import FpVerif.Model.Json
+import Oracle.RecordStep
 /-! Line-protocol oracle for the JSON methods of `fp.Option` (C15): `oracle_json`.
 
   (optjson direct HEX TARGET)   (&target).UnmarshalJSON(bytes)            — `Opt.unmarshalJSON` of the model
@@ -123,6 +124,7 @@ def step (line : String) : String :=
     match parseTarget tgt with
     | some v => String.ofList ((Opt.marshalJSON intCodec v).map (fun b => Char.ofNat b.toNat))
     | none => "bad-op"
+  | some (.list (.atom "methods" :: _)) => recordStep line   -- struct tags of the Mutable twin: the record model
   | _ => "bad-op"
 
 partial def loop (h : IO.FS.Stream) (out : IO.FS.Stream) : IO Unit := do
